@@ -12,6 +12,7 @@ from mc import maps
 from mc import mspace as ms
 from mc.engine import fp
 from checks import _pathspace as ps
+import leuvenmapmatching.matcher.base as mbase
 from leuvenmapmatching.matcher.base import LatticeColumn, BaseMatching, BaseMatcher
 from leuvenmapmatching.util.segment import Segment
 
@@ -36,7 +37,7 @@ MANIFEST = {
     "technique": "exhaustive enumeration of a synthetic seam, explicit-state BFS over seam operation sequences, bounded-exhaustive runs and width histories",
 }
 MANIFEST["text"] += " " + (
-    'Added after the seeding waves: in one-shot runs no postponed entry may have a successor; known findings D16 (two forms) and D19 are recognised by structural predicates on the pruned and the unpruned lattice.')
+    'Added after the seeding waves: in one-shot runs no postponed entry may have a successor; known findings D16 (two forms) and D19 are recognised by structural predicates on the pruned and the unpruned lattice. Third session: at the moment of expansion every live edge candidate scheduled for the round must actually be handed to the successor generation (a probe on next(); staying on the edge is unconditional); at the end of every width history of the emitting-only configurations one more widening to a width no column reaches must coincide with the unpruned run.')
 BUDGET = {"quick": 420, "thorough": 3000}
 RULE = ("states = synthetic columns / distinct seam states / lattice layers inspected, transitions = prune calls, seam operations and "
         "matcher runs, traces validated = pruned-vs-unpruned and widening comparisons; non-trivial = some candidate was actually "
@@ -278,6 +279,7 @@ class ExpansionProbe:
         self.orig = getattr(BaseMatcher, "_match_states", None)
         self.msgs = []
         self.calls = 0
+        self.touched = None
 
     def __enter__(self):
         probe = self
@@ -303,13 +305,33 @@ class ExpansionProbe:
                     if later and now and max(e.logprob for e in later) > min(e.logprob for e in now):
                         probe.msgs.append(f"observation {obs_idx - 1}, round {self_m.expand_now}: a postponed candidate "
                                           f"({max(e.logprob for e in later)}) is more probable than an expanded one ({min(e.logprob for e in now)})")
+                # "are expanded": every live edge candidate scheduled for this round must actually be handed to the
+                # successor generation ("stay on the edge" is unconditional, so its next() is called at least once)
+                probe.touched = set()
+                ret = probe.orig(self_m, obs_idx, prev_lattice, *a, **kw)
+                for e in now:
+                    if e.edge_m.l2 is not None and id(e) not in probe.touched:
+                        probe.msgs.append(f"observation {obs_idx - 1}, round {self_m.expand_now}: candidate {e.key} ({e.logprob}) is live and scheduled "
+                                          f"for this round (among the {W} most probable plus ties) but no successor was generated from it")
+                        break
+                probe.touched = None
+                return ret
             return probe.orig(self_m, obs_idx, prev_lattice, *a, **kw)
         BaseMatcher._match_states = wrapped
+        orig_next = mbase.BaseMatching.next
+        self.orig_next = orig_next
+
+        def next_probe(self_e, *a, **kw):
+            if probe.touched is not None:
+                probe.touched.add(id(self_e))
+            return orig_next(self_e, *a, **kw)
+        mbase.BaseMatching.next = next_probe
         return self
 
     def __exit__(self, *exc):
         if self.orig is not None:
             BaseMatcher._match_states = self.orig
+            mbase.BaseMatching.next = self.orig_next
 
 
 def final_lattice_msgs(m, W, last):
@@ -530,6 +552,7 @@ def run_widen(case, res):
     traces = ps.traces_of(case, graph)
     cfgs = [case["cfg"]] if "cfg" in case else HCFG
     seqs = [case["seq"]] if "seq" in case else list(width_sequences())
+    unpruned = {}
     for trace in traces:
         T = len(trace)
         for c in cfgs:
@@ -564,6 +587,34 @@ def run_widen(case, res):
                             res["nt"] += 1
                     prev = (e, cur[1])
                     outs.add((e, cur[1]))
+                else:
+                    # "coincides with the unpruned run once W is at least the number of candidates", at the end of a widening
+                    # HISTORY: one more widening, to a width no column reaches.  Decided for the emitting-only configurations;
+                    # with non-emitting states the known findings D14 / D16 / D19 (a pruned run can beat the unpruned one, stale
+                    # scores after widening) make the comparison undecidable without their predicates (52 of 9 408 sampled
+                    # histories differ on the unchanged tree, all with non-emitting states, none without).
+                    if not c.get("ne"):
+                        key = (tuple(trace), repr(c))
+                        if key not in unpruned:
+                            mu = ms.make_matcher(mp, dict(c, width=None))
+                            try:
+                                unpruned[key] = ms.canon(mu, mu.match(list(trace)))[:2]
+                            except Exception as exc:  # noqa
+                                unpruned[key] = ("EXC", repr(exc))
+                            res["n"] += 1
+                        try:
+                            rf = m.increase_max_lattice_width(1000)
+                            full = ms.canon(m, rf)[:2]
+                        except Exception as exc:  # noqa
+                            full = ("EXC", repr(exc))
+                        res["n"] += 1
+                        res["tr"] += 1
+                        res["tv"] += 1
+                        u = unpruned[key]
+                        same = full == u or (full[0] == u[0] and isinstance(full[1], float) and isinstance(u[1], float) and abs(full[1] - u[1]) <= 1e-9 * max(1.0, abs(u[1])))
+                        if not same:
+                            res["v"].append({"msg": f"{where}, then width 1000: result {full} differs from the unpruned run {u} although the width exceeds "
+                                                    f"every column", "case": mini})
     res["out"] = sorted(outs, key=repr)[:1000]
 
 
